@@ -7,7 +7,7 @@
 import TrompModel.Model.CxxBase
 namespace Tromp.Cxx
 
-/-- `impl::range_all_of_checker::operator()` — translated from include/trompeloeil/matcher/range.hpp:462 -/
+/-- `impl::range_all_of_checker::operator()` — translated from include/trompeloeil/matcher/range.hpp:468 -/
 def range_all_of {α μ : Type} (accepts : μ → α → Bool) (range : List α) (comp : μ) : Bool := Id.run do
   let it : List α := range
   return it.all (fun (t : α) => accepts comp t)
